@@ -23,7 +23,8 @@ op codes (a = argument list)           observation
                                        generator's recomputation of the ln-based sizing, used by the model)
  15 fpp_probe  slot bound (item h0 h1)*   [number of probes reported as contained]
 """
-import math, struct
+import math, os, struct, sys
+sys.path.insert(0, os.path.join(os.path.dirname(os.path.abspath(__file__)), ".."))
 from common import Case
 import pyref
 
@@ -353,3 +354,18 @@ def nontrivial(case, obs):
     """non-trivial: at least two distinct items inserted and at least one membership query or array dump"""
     items = {a[1] for (c, a) in case.ops if c in (1, 3)}
     return len(items) >= 2 and any(c in (2, 9) for (c, a) in case.ops)
+
+
+if __name__ == "__main__":
+    # test only (no theorem): prints target vs measured false-positive rate of with_accuracy(n, p) filters
+    import random
+    import common
+    rng = random.Random(int(os.environ.get("VERIF_SEED", "20260926")))
+    cases = [gen_fpp(rng, i) for i in range(12)]
+    wd = os.path.join(common.WORK, "C09"); os.makedirs(wd, exist_ok=True)
+    with common.BuildLock():
+        ok, out = common.harness_build(["release"], [FAMILY])
+        res = common.run_harness(FAMILY, cases, "release", wd, "fpp") if ok else sys.exit(out[-2000:])
+    for c in res:
+        p, m = measure_fpp(c, c.obs)
+        print("with_accuracy(n=%d, p=%g): capacity=%d num_hashes=%d measured fpp=%.4f" % (c.ops[0][1][1], p, c.obs[0][0], c.obs[0][1], m))
